@@ -89,6 +89,13 @@ def main():
         for f in os.listdir(d):
             if os.path.isfile(os.path.join(d, f)) and os.path.abspath(d) != os.path.abspath(dst):
                 shutil.copy(os.path.join(d, f), os.path.join(dst, f))
+        prev = meta.get("verification", {})
+        for k in ("tests", "tests_pass_with_change"):
+            if k not in record and k in prev:
+                record[k] = prev[k]          # carried over from the first verification (re-runs use --skip-tests)
+        first = prev.get("first_result") or {c: {kk: r.get(kk) for kk in ("exit", "violations", "no_failing_input_found")} for c, r in prev.get("checks", {}).items()}
+        if first:
+            record["first_result"] = first  # what the checks reported before they were strengthened (if different)
         meta["verification"] = record
         json.dump(meta, open(os.path.join(dst, "meta.json"), "w"), indent=1)
 
